@@ -59,6 +59,34 @@ def _waiting_guard_edges(fn):
     return out
 
 
+_VALIDATOR_CACHE = {}
+
+
+def discovered_validators(F, em):
+    """engine methods that *are* validators regardless of their name: they return Result<(), _>, contain a
+    `waiting_tx_count`-based refusal (directly or in a closure handed to a lock accessor) and take no write lock"""
+    key = id(F)
+    if key in _VALIDATOR_CACHE:
+        return _VALIDATOR_CACHE[key]
+    out = set()
+    for name, fn in em.items():
+        if not (fn.j.get("output") or "").startswith("std::result::Result<()"):
+            continue
+        bodies = [fn] + F.descendants(fn.id)
+        if any((c.method or "") in ("write_fn", "write_fn_unchecked") for b in bodies for c in b.calls()):
+            continue
+        refuses = False
+        for b in bodies:
+            eb = error_blocks(b)
+            for (bb, s, fm, line) in edge_forms(b):
+                if any(mentions(t, "waiting_tx_count") for t in fm.lin.terms) and fm.rel in ("!=", "==") and (s in eb or _leads_to_error_only(b, s)):
+                    refuses = True
+        if refuses:
+            out.add(name)
+    _VALIDATOR_CACHE[key] = out
+    return out
+
+
 def validated_at(F, em, validated, body, bb, depth=0):
     """is block bb of `body` only reachable after a validator: a dominating validator call with propagated error
     (validate_next_tx / require_no_waiting_txes / an engine method already shown to validate), a dominating inline
@@ -68,7 +96,7 @@ def validated_at(F, em, validated, body, bb, depth=0):
         if body.is_cleanup(c.bb) or c.bb == bb:
             continue
         m = c.method or ""
-        is_v = m in VALIDATORS or (validated.get(m) and c.target_id == em.get(m, body).id)
+        is_v = (m in VALIDATORS or m in discovered_validators(F, em)) and c.target_id == em.get(m, body).id or (validated.get(m) and c.target_id == em.get(m, body).id)
         if is_v and err_propagated(body, c) and body.dominates(c.bb, bb):
             return "%s()" % m
     for e in _waiting_guard_edges(body):
